@@ -22,7 +22,7 @@ Obs == ndJsonDeserialize("obs.ndjson")
 CfgOf(o) == [impl |-> o.case.impl, kinds |-> o.case.kinds, linkm |-> o.case.linkm,
              maskm |-> o.case.maskm, devnull |-> o.case.devnull]
 EnvOf(o) == [proc |-> ToSet(o.procfacts), srcfl |-> ToSet(o.srcfl), lockfl |-> ToSet(o.lockfl),
-             sharefl |-> ToSet(o.sharefl), shared |-> o.srcshared]
+             sharefl |-> ToSet(o.sharefl), shared |-> o.srcshared, flipfl |-> ToSet(o.flipfl)]
 
 \* error locations of the mount block (pkg/forkexec/errloc_linux.go) and of the container init
 MountPhases == {"mount(root)", "mount(tmpfs)", "mount(chdir)", "mount", "mount(mkdir)", "pivot_root",
